@@ -119,7 +119,38 @@ pub struct Exts {
     t: (Ext, Inner),
 }
 
-pub const FAMILIES: &[&str] = &["Flat", "Shapes", "Adjs", "Hashes", "Kebab", "Rest", "Exts"];
+#[derive(Serialize, Deserialize, Debug, PartialEq, Clone)]
+#[serde(deny_unknown_fields)]
+pub struct Strict {
+    a: i32,
+    b: std::borrow::Cow<'static, str>,
+    #[serde(default = "default_level")]
+    level: u8,
+    inner: StrictInner,
+    list: Vec<StrictInner>,
+}
+#[derive(Serialize, Deserialize, Debug, PartialEq, Clone)]
+#[serde(deny_unknown_fields)]
+pub struct StrictInner {
+    x: (u8, i64),
+    #[serde(with = "as_string")]
+    n: u32,
+}
+fn default_level() -> u8 {
+    3
+}
+mod as_string {
+    use serde::{Deserialize, Deserializer, Serializer};
+    pub fn serialize<S: Serializer>(v: &u32, s: S) -> Result<S::Ok, S::Error> {
+        s.collect_str(v)
+    }
+    pub fn deserialize<'de, D: Deserializer<'de>>(d: D) -> Result<u32, D::Error> {
+        let t = String::deserialize(d)?;
+        t.parse().map_err(serde::de::Error::custom)
+    }
+}
+
+pub const FAMILIES: &[&str] = &["Flat", "Shapes", "Adjs", "Hashes", "Kebab", "Rest", "Exts", "Strict"];
 
 // ---------------------------------------------------------------- value generators (pure functions of the seed)
 
@@ -249,6 +280,12 @@ fn gen_rest(r: &mut Rng, size: u32) -> Rest {
         DateOrText::T(r.pick(&["soon", "", "not a date", "x y"]).to_string())
     };
     Rest { id: r.below(1000) as u32, when, rest }
+}
+fn strict_inner(r: &mut Rng) -> StrictInner {
+    StrictInner { x: (*r.pick(&[0u8, 255, 7]), *r.pick(&[0i64, -1, i64::MAX])), n: *r.pick(&[0u32, 42, u32::MAX]) }
+}
+fn gen_strict(r: &mut Rng, size: u32) -> Strict {
+    Strict { a: *r.pick(&[0, -1, i32::MIN]), b: std::borrow::Cow::Owned(s(r)), level: *r.pick(&[0u8, 3, 255]), inner: strict_inner(r), list: (0..count(r, size)).map(|_| strict_inner(r)).collect() }
 }
 fn gen_exts(r: &mut Rng, size: u32) -> Exts {
     let mut h = HashMap::new();
@@ -586,6 +623,7 @@ pub fn execute(prop: &str, sc: &Scenario, verbose: bool, out: &mut RunOut) {
         "Kebab" => drive::<Kebab>(prop, gen_kebab, sc, verbose, out),
         "Rest" => drive::<Rest>(prop, gen_rest, sc, verbose, out),
         "Exts" => drive::<Exts>(prop, gen_exts, sc, verbose, out),
+        "Strict" => drive::<Strict>(prop, gen_strict, sc, verbose, out),
         other => out.harness_error = Some(format!("unknown real family {other:?}")),
     }
 }
